@@ -51,6 +51,7 @@ theorem ctxSignal_cnt {w s req pl path ok s'} (P : Payload → Bool)
 
 theorem step_cnt {w : Wiring} {s s' : AState} {l : Label} (P : Payload → Bool)
     (hmsg : ∀ m sl, P (.msg m sl) = false) (htick : ∀ t, P (.tick t) = false) (hping : ∀ o, P (.ping o) = false)
+    (hext : ∀ b, P (.ext b) = false)
     (hs : step w s l = some s') : cntP P s' ≤ cntP P s + pushN P l := by
   have same : s'.chan = s.chan → cntP P s' ≤ cntP P s + pushN P l := by
     intro h; unfold cntP; rw [h]; omega
@@ -134,6 +135,22 @@ theorem step_cnt {w : Wiring} {s s' : AState} {l : Label} (P : Payload → Bool)
     obtain ⟨tok, rest, hq, hc⟩ := stepTickBegin_detail hs
     unfold cntP; rw [hc, hq]
     simp [List.countP_cons, hmsg, htick, pushN]
+  case extPush b =>
+    unfold stepExtPush at hs
+    (repeat' (split at hs)) <;>
+      (first
+        | (simp at hs; done)
+        | (simp at hs; subst hs; simp [cntP, pushN, List.countP_append, List.countP_cons, hext]))
+  case extBegin b m =>
+    unfold stepExtBegin at hs
+    cases hph : s.phase <;> simp [hph] at hs
+    cases hq : s.chan.queue with
+    | nil => simp [hq] at hs
+    | cons e rest =>
+      obtain ⟨pl, tok⟩ := e
+      cases pl <;> simp [hq] at hs
+      obtain ⟨rfl, rfl⟩ := hs
+      simp [cntP, hq, List.countP_cons, hmsg, hext, pushN]
   case time => exact same (stepTime_chan hs)
   case cancel => exact dropped (by rw [stepCancel_chan hs]; rfl)
   case taskPanic =>
